@@ -106,7 +106,7 @@ def check(ctx):
                 ctx.ob('R2', e['where'], e['node'], not bad, 'periodic distance on fractional coordinates' if not bad else
                        f'periodic distance receives {geo_text(bad[0].geo)}')
     # site permutation / orientation: the site assignment itself (frame of the tree coordinates, aligned local -> global lookup)
-    ctx.include('C02', 'S', only=('R1', 'R2'))
+    ctx.include('C02', 'S', only=('R1', 'R2', 'R4'))
     # ---- R3 / R4
     check_moves(ctx, R1='R4', R6='R3')
     # ---- R5 atom permutation: per-atom scans do not carry state from one atom to the next
